@@ -26,6 +26,7 @@
 #include <fcppt/optional/make.hpp>
 #include <fcppt/optional/map.hpp>
 #include <fcppt/optional/maybe.hpp>
+#include <fcppt/optional/maybe_multi.hpp>
 #include <fcppt/optional/sequence.hpp>
 #include <fcppt/optional/to_container.hpp>
 #include <fcppt/optional/to_exception.hpp>
@@ -91,6 +92,50 @@ void optionals()
         {
           cb_scope const g{""};
           return T(1000);
+        });
+      });
+      // continuations taking their parameter BY VALUE (a user lambda [](T x)): an rvalue source's
+      // value is consumed by the parameter
+      run1<C>("optional::map", true, sh + "/by-value", mk, [](auto &&a) { return fcppt::optional::map(C05_FWD(a), pass_by_value); });
+      run1<C>("optional::bind", true, sh + "/by-value", mk, [](auto &&a)
+      {
+        return fcppt::optional::bind(C05_FWD(a), [](taken<T> x)
+        {
+          cb_scope const g{""};
+          return fcppt::optional::make(T(std::move(x.value)));
+        });
+      });
+      run1<C>("optional::maybe", true, sh + "/by-value", mk, [](auto &&a)
+      {
+        return fcppt::optional::maybe(C05_FWD(a), []
+        {
+          cb_scope const g{""};
+          return vec{};
+        },
+        [](taken<T> x)
+        {
+          cb_scope const g{""};
+          vec r;
+          r.emplace_back(std::move(x.value));
+          return r;
+        });
+      });
+      run1<C>("optional::filter", true, sh + "/accept-by-value", mk, [](auto &&a)
+      {
+        return fcppt::optional::filter(C05_FWD(a), [](taken<T> x)
+        {
+          cb_scope const g{""};
+          (void)x.value.value();
+          return true;
+        });
+      });
+      run1<C>("optional::filter", false, sh + "/reject-by-value", mk, [](auto &&a)
+      {
+        return fcppt::optional::filter(C05_FWD(a), [](taken<T> x)
+        {
+          cb_scope const g{""};
+          (void)x.value.value();
+          return false;
         });
       });
       run1<C>("optional::filter", false, sh + "/reject", mk, [](auto &&a)
@@ -191,6 +236,38 @@ void optionals()
         });
       });
     }
+    // three optionals, every combination of value categories (shapes: all present / middle absent)
+    if (some)
+      for (bool mid : {false, true})
+      {
+        std::string const sh3 = std::string{"some,"} + (mid ? "some" : "none") + ",some";
+        auto const mkm = [mid] { return mk_opt(mid); };
+        auto const collect3 = [](auto &&x, auto &&y, auto &&z)
+        {
+          cb_scope const g{C05_RECV(x) + "," + C05_RECV(y) + "," + C05_RECV(z)};
+          vec r;
+          r.reserve(3U);
+          r.emplace_back(C05_FWD(x));
+          r.emplace_back(C05_FWD(y));
+          r.emplace_back(C05_FWD(z));
+          return r;
+        };
+        for_cats3([&](auto c1, auto c2, auto c3)
+        {
+          run3<decltype(c1)::value, decltype(c2)::value, decltype(c3)::value>("optional::apply", mid, sh3, mk, mkm, mk,
+              [&](auto &&a, auto &&b, auto &&cc) { return fcppt::optional::apply(collect3, C05_FWD(a), C05_FWD(b), C05_FWD(cc)); });
+          run3<decltype(c1)::value, decltype(c2)::value, decltype(c3)::value>("optional::maybe_multi", mid, sh3, mk, mkm, mk,
+              [&](auto &&a, auto &&b, auto &&cc)
+              {
+                return fcppt::optional::maybe_multi([]
+                {
+                  cb_scope const g{""};
+                  return vec{};
+                },
+                collect3, C05_FWD(a), C05_FWD(b), C05_FWD(cc));
+              });
+        });
+      }
     // nested optional
     for (bool inner : {false, true})
     {
@@ -260,6 +337,29 @@ void eithers()
               return var{T(C05_FWD(s))};
             });
       });
+      run1<C>("either::map", true, sh + "/by-value", mk, [](auto &&a) { return fcppt::either::map(C05_FWD(a), pass_by_value); });
+      run1<C>("either::bind", true, sh + "/by-value", mk, [](auto &&a)
+      {
+        return fcppt::either::bind(C05_FWD(a), [](taken<T> x)
+        {
+          cb_scope const g{""};
+          return eit{T(std::move(x.value))};
+        });
+      });
+      run1<C>("either::match", true, sh + "/by-value", mk, [](auto &&a)
+      {
+        return fcppt::either::match(C05_FWD(a),
+            [](taken<F> f)
+            {
+              cb_scope const g{""};
+              return var{F(std::move(f.value))};
+            },
+            [](taken<T> x)
+            {
+              cb_scope const g{""};
+              return var{T(std::move(x.value))};
+            });
+      });
       run1<C>("either::success_opt", succ, sh, mk, [](auto &&a) { return fcppt::either::success_opt(C05_FWD(a)); });
       run1<C>("either::failure_opt", !succ, sh, mk, [](auto &&a) { return fcppt::either::failure_opt(C05_FWD(a)); });
       if (succ)
@@ -308,6 +408,29 @@ void eithers()
         });
       });
     }
+  }
+  // three eithers, every combination of value categories (all success / failure in the middle)
+  for (bool mid : {false, true})
+  {
+    std::string const sh3 = std::string{"success,"} + (mid ? "success" : "failure") + ",success";
+    for_cats3([&](auto c1, auto c2, auto c3)
+    {
+      run3<decltype(c1)::value, decltype(c2)::value, decltype(c3)::value>("either::apply", mid, sh3, [] { return mk_eit(true); },
+          [mid] { return mk_eit(mid); }, [] { return mk_eit(true); }, [](auto &&a, auto &&b, auto &&cc)
+      {
+        return fcppt::either::apply([](auto &&x, auto &&y, auto &&z)
+        {
+          cb_scope const g{C05_RECV(x) + "," + C05_RECV(y) + "," + C05_RECV(z)};
+          vec r;
+          r.reserve(3U);
+          r.emplace_back(C05_FWD(x));
+          r.emplace_back(C05_FWD(y));
+          r.emplace_back(C05_FWD(z));
+          return r;
+        },
+        C05_FWD(a), C05_FWD(b), C05_FWD(cc));
+      });
+    });
   }
   // from_optional
   for (bool some : {false, true})
@@ -417,6 +540,42 @@ void variants()
   {
     constexpr char C = decltype(c)::value;
     run1<C>("variant::object(T)", true, "element", [] { return T(next_tok()); }, [](auto &&a) { return var(C05_FWD(a)); });
+  });
+  for_cats<'r', 'l', 'c'>([&](auto c)
+  {
+    run1<decltype(c)::value>("variant::match", true, "T/by-value", [] { return var{T(next_tok())}; }, [](auto &&a)
+    {
+      return fcppt::variant::match(C05_FWD(a),
+          [](taken<T> x)
+          {
+            cb_scope const g{""};
+            return var{T(std::move(x.value))};
+          },
+          [](taken<F> y)
+          {
+            cb_scope const g{""};
+            return var{F(std::move(y.value))};
+          });
+    });
+  });
+  // three variants, every combination of value categories
+  for_cats3([&](auto c1, auto c2, auto c3)
+  {
+    run3<decltype(c1)::value, decltype(c2)::value, decltype(c3)::value>("variant::apply", true, "T,F,T", [] { return var{T(next_tok())}; },
+        [] { return var{F(next_tok())}; }, [] { return var{T(next_tok())}; }, [](auto &&a, auto &&b, auto &&cc)
+    {
+      return fcppt::variant::apply([](auto &&x, auto &&y, auto &&z)
+      {
+        cb_scope const g{C05_RECV(x) + "," + C05_RECV(y) + "," + C05_RECV(z)};
+        std::vector<var> r;
+        r.reserve(3U);
+        r.emplace_back(std::remove_cvref_t<decltype(x)>(C05_FWD(x)));
+        r.emplace_back(std::remove_cvref_t<decltype(y)>(C05_FWD(y)));
+        r.emplace_back(std::remove_cvref_t<decltype(z)>(C05_FWD(z)));
+        return r;
+      },
+      C05_FWD(a), C05_FWD(b), C05_FWD(cc));
+    });
   });
   // binary visitation
   for_cats<'r', 'l', 'c'>([&](auto c1)
